@@ -135,6 +135,14 @@ func vfWinDecorate(r *vfRand, line string, kinds int, density int, st *vfNoiseSt
 			out = append(out, line[i-1])
 			st.reprint++
 			special = true
+		} else if i > 0 && kinds&8 != 0 && !noDigitH && line[i] != line[i-1] && r.Intn(density*3) == 0 {
+			// W5: a wrap and a cursor move without a re-print: the next letter is new (it differs from the previous one)
+			out = append(out, '\r', '\n')
+			out = append(out, vfCSIH(r)...)
+			st.reprint++
+			out = append(out, line[i])
+			noDigitH = true
+			continue
 		} else if i > 0 && kinds&16 != 0 && !noDigitH && r.Intn(density*2) == 0 {
 			// W4: cursor home + a stray character, then the real text continues after a move
 			out = append(out, '\b')
